@@ -529,3 +529,96 @@ def classify(seg, idx, reason):
         else:
             sigs.add("request-lost-%s-%s" % ("dial" if r["dial"] else "nodial", "seen" if r["seen"] else "unseen"))
     return sorted(sigs) or ["silence"]
+
+
+# ----------------------------------------------------------------------------- late responses (C04 clause at connection level)
+
+C04_RULE = "response reported sent but lost on a link without fault"
+LATE_SIG = "response-reported-sent-but-lost-at-idle-close"
+
+
+def late_response_scenarios(seed, quick=True):
+    """Responder with keep-alive T answers a request at 0.5 T / 1.5 T / 3.5 T (before / after its connection handles
+    were downgraded for inactivity), with and without feedback, small / 64 KiB / 1 MiB responses, on every transport.
+    No fault is injected, the requester waits long enough: the response must arrive."""
+    out = []
+    for tr in ("tcp", "ws", "quic"):
+        for T in (400, 1000):
+            for mult in (0.5, 1.5, 3.5):
+                for fb in (False, True):
+                    for rsize in (32, 65536, 1048576):
+                        reps = 1 if quick else 3
+                        for rep in range(reps):
+                            delay = int(T * mult)
+                            sc = dict(id=400000 + len(out), seed=seed * 1000 + len(out), src="late-response", transport=tr,
+                                      timeout_ms=4 * T + 1500, conn_ms=6000, sub_ms=2000, max_size=1100000, keep_alive_ms=60000,
+                                      perturb=0 if rep == 0 else 2, c04=True,
+                                      nodes=[{}, {"keep_alive_ms": T}], links=[L(1, 2), L(2, 1)],
+                                      steps=[{"a": "connect", "from": 1, "to": 2},
+                                             {"a": "burst", "t": 50, "o": 1,
+                                              "reqs": [R(1, dial=False, rsize=rsize, rdelay=delay, fb=fb)]}],
+                                      epilogue="", linger_ms=100, late=dict(T=T, mult=mult, fb=fb, rsize=rsize))
+                            out.append(sc)
+    return out
+
+
+def late_response_part(ctx, quick=None):
+    """Run only the late-response family on real nodes and judge the last clause of C04 lifted to the connection:
+    a response whose send was reported complete at the responder (send_response returned / feedback said sent) while
+    the requester was still waiting, on a link without injected fault, must be delivered byte-identically.
+
+    Returns (violations, coverage): violations = list of dict(sig, what, replay_obj) ready for vlib.conclude
+    (sig = 'response-reported-sent-but-lost-at-idle-close@<transport>' for responses lost after the keep-alive
+    downgrade, '<monitor rule>@<transport>' for anything else the ReqResp monitor objects to); coverage = dict with
+    measured counts per transport."""
+    import vlib
+    quick = ctx.quick() if quick is None else quick
+    scs = late_response_scenarios(ctx.seed, quick)
+    vlib.cargo_build(ctx, ["reqresp"])
+    vlib.write_jsonl(ctx.path("late.jsonl"), [{k: v for k, v in s.items() if k != "late"} for s in scs])
+    summ, _ = vlib.harness(ctx, "reqresp", ["--scenarios", ctx.path("late.jsonl"), "--out", ctx.path("late.ndjson"),
+                                            "--conc", 120, "--workers", 8], timeout=900)
+    lines = vlib.read_lines(ctx.path("late.ndjson"))
+    by_id = {s["id"]: s for s in scs}
+    nseg, nev, rejects = vlib.validate_all(ctx, "ReqRespTrace.tla", "ReqRespTrace.cfg", lines, tag="late")
+    cov = {"executions": nseg, "events": nev, "discarded": summ["discarded"], "max_lag_ms": summ["max_lag_ms"], "per_transport": {}}
+    outcome = {}
+    for seg in vlib.split_segments(lines, lambda ln: '"e":"reset"' in ln):
+        hdr = json.loads(seg[0])
+        sc = by_id.get(hdr["id"], {})
+        evs = [json.loads(x) for x in seg[1:]]
+        got = "delivered" if any(e["e"] == "resp" for e in evs) else ("failed" if any(e["e"] == "fail" for e in evs) else "none")
+        t = cov["per_transport"].setdefault(hdr["transport"], {"executions": 0, "delivered": 0, "lost": 0, "by_case": {}})
+        t["executions"] += 1
+        t["delivered"] += got == "delivered"
+        t["lost"] += got != "delivered"
+        la = sc.get("late", {})
+        key = "answer at %.1f T%s" % (la.get("mult", 0), " with feedback" if la.get("fb") else "")
+        c = t["by_case"].setdefault(key, [0, 0])
+        c[0] += got == "delivered"
+        c[1] += 1
+        outcome[hdr["id"]] = got
+    violations = []
+    for r in rejects:
+        seg, idx = r
+        hdr = json.loads(seg[0])
+        sc = by_id.get(hdr["id"], {})
+        bad = json.loads(seg[idx - 1])
+        if r.reason.startswith("harness:") or r.reason == "unconsumed":
+            raise vlib.ToolError("the recorded trace is malformed (%s) at %s" % (r.reason, seg[idx - 1][:300]))
+        if r.reason == C04_RULE and bad.get("k") == "Timeout":
+            cov["not_judged_requester_timed_out"] = cov.get("not_judged_requester_timed_out", 0) + 1
+            continue
+        la = sc.get("late", {})
+        if r.reason == C04_RULE and la.get("mult", 0) > 1:
+            sig = "%s@%s" % (LATE_SIG, hdr["transport"])
+        else:
+            sig = "%s@%s" % (r.reason.replace(" ", "-").replace(":", ""), hdr["transport"])
+        violations.append({"sig": sig,
+                           "what": "%s: keep-alive %s ms at the responder, answered after %s ms%s, %s bytes: %s" % (
+                               r.reason, la.get("T"), int(la.get("T", 0) * la.get("mult", 0)),
+                               " (feedback reported the response as sent)" if la.get("fb") else "", la.get("rsize"), seg[idx - 1][:200]),
+                           "replay_obj": {"property": "C04", "reason": r.reason, "signature": sig,
+                                          "scenario": {k: v for k, v in sc.items() if k != "late"}, "case": la,
+                                          "segment": [json.loads(x) for x in seg[:idx]]}})
+    return violations, cov
